@@ -433,7 +433,8 @@ func main() {
 		"a follow-up valid push by another client is sent after every input that reached an insert service, was acknowledged, or failed with 5xx, and after every 50th input otherwise",
 	}
 
-	inputs := Generate(genOpts{Thorough: r.Thorough()})
+	literals, litHeaders := ScanLiterals(ev.Repo())
+	inputs := Generate(genOpts{Thorough: r.Thorough(), Literals: literals, Headers: litHeaders})
 	nMain := len(inputs)
 	// size classes (threshold-crossing valid bodies), run in shared-batch workers
 	inputs = append(inputs, GenerateSizes(genOpts{Thorough: r.Thorough()}, nMain)...)
@@ -730,6 +731,8 @@ func main() {
 	// ---- judge
 	judgeAll(r, inputs, results, culprits)
 	r.Extra["inputs_generated"] = len(inputs)
+	r.Extra["string_literals_compared_in_ingest_code"] = literals
+	r.Extra["request_headers_read_by_ingest_code"] = litHeaders
 	nShared, nSize := 0, 0
 	for id, res := range results {
 		if id >= nMain {
@@ -859,6 +862,9 @@ func judgeAll(r *ev.Run, inputs []Input, results map[int]Result, culprits []culp
 		}
 		okStatus := familyOK[in.Family]
 		switch {
+		case res.Status/100 == 2 && in.Family != "health" && !res.SharedMode && (res.Requests == 0 || (in.SeedBody && res.Inserts == 0)):
+			// acknowledged, but nothing was handed to an insert service / the valid seed's rows reached no INSERT
+			violate(r, "acknowledged_without_ingest:"+shape(in), describe(in)+fmt.Sprintf(": answered %d although nothing was ingested (calls into insert services: %d, INSERT blocks: %d)", res.Status, res.Requests, res.Inserts), in, res)
 		case res.Status/100 == 2:
 			if !wf {
 				violate(r, acceptedClass(in, why), describe(in)+fmt.Sprintf(": answered %d although the body is malformed (%s)", res.Status, why), in, res)
